@@ -9,6 +9,7 @@
 //  peakloc.real                     vertex of the parabola through the three samples around idx (cyclic neighbours)
 //  detector.present / .absent       PreambleDetector against the documented formula evaluated in long double
 //  detector.reset                   histories on one object: traffic, reset(), stream - the stream is handled as by a fresh detector
+//  detector.first                   preamble on samples 0 .. nh-1 of a fresh detector / right after reset(): detection at offset nh-1
 //  detector.refscale                reference c*h, c in {1e-3, 0.1, sqrt 2, 10, 1e3}: same behaviour as with h (score is a normalised correlation)
 //  detector.gap                     traffic, 1 / 2 / 5 frames that are exactly zero in every sample, traffic (preamble absent / before / after the gap)
 //  detector.reject                  a call with a length that is not a multiple of frame_len() throws and leaves the object unchanged
@@ -584,7 +585,7 @@ static void run_detector(Ctx& ctx, bool T) {
     const std::vector<double> thrs = T ? std::vector<double>{0.3, 0.4, 0.5, 0.6, 0.7, 0.8, 0.9, 0.95} : std::vector<double>{0.3, 0.5, 0.7, 0.9};
     const int NFR = 4;
     for (const Preamble& pr : pre) {
-        if (!ctx.wants("detector.present") && !ctx.wants("detector.absent") && !ctx.wants("detector.reset") && !ctx.wants("detector.reject") && !ctx.wants("detector.big") && !ctx.wants("detector.gap") && !ctx.wants("detector.refscale")) break;
+        if (!ctx.wants("detector.present") && !ctx.wants("detector.absent") && !ctx.wants("detector.reset") && !ctx.wants("detector.reject") && !ctx.wants("detector.big") && !ctx.wants("detector.gap") && !ctx.wants("detector.refscale") && !ctx.wants("detector.first")) break;
         const int nh = pr.h.size();
         int fl = 0;
         double rms_h = 0;
@@ -849,6 +850,48 @@ static void run_detector(Ctx& ctx, bool T) {
                                 GUARD_END("PreambleDetector.process.after_reject")
                             }
                         }
+                    }
+                }
+            }
+        }
+        // ---- the preamble occupies the very first nh samples a detector ever sees (no lead-in): samples 0 .. nh-1 of the stream of
+        // a FRESH object, and the same right after reset() following earlier traffic (a = stream with a preamble, b = noise at the
+        // preamble's power).  Expected: detection in call 0 at offset nh-1 (filters and ring buffer are full exactly there);
+        // decidability by the documented statistic as usual.
+        {
+            const char* HN[3] = {"fresh", "reset_a", "reset_b"};
+            for (int hist = 0; hist < 3; ++hist) {
+                for (int embed = 0; embed < 2; ++embed) {
+                    for (double A : amps) {
+                        if (!ctx.take("detector.first", P().kv("preamble", pr.name).kv("hist", HN[hist]).kv("floor", embed).kv("amp", A))) continue;
+                        GUARD_BEGIN
+                        const int e = nh - 1;
+                        arr_cmplx s = make_stream(embed, A, 0);
+                        DetRef R = det_reference(pr.h, s, rms_h);
+                        ctx.nontrivial();
+                        ctx.note(std::string("detector preamble on samples 0..nh-1, ") + HN[hist]);
+                        arr_cmplx s1;
+                        if (hist == 1) s1 = make_stream(embed, A, fl + fl / 3 - nh + 1 >= 0 ? fl + fl / 3 - nh + 1 : 0);
+                        if (hist == 2) {
+                            s1 = arr_cmplx(N);
+                            const double g = A * (double)rms_true / std::sqrt(2.0);
+                            for (int k = 0; k < N; ++k) s1[k] = cmplx_t{g * lcg_gauss(162, (uint64_t)k), g * lcg_gauss(163, (uint64_t)k)};
+                        }
+                        History h;
+                        if (hist > 0)
+                            h = [&](PreambleDetector& det, int fpc, int call) {
+                                if (call != 0) return;
+                                const int blk = fpc * fl;
+                                for (int c = 0; c < NFR / fpc; ++c) {
+                                    arr_cmplx b(blk);
+                                    for (int i = 0; i < blk; ++i) b[i] = s1[c * blk + i];
+                                    (void)det.process(b);
+                                }
+                                det.reset();
+                            };
+                        for (double thr : thrs)
+                            for (int fpc : {1, 2}) run_one(s, R, thr, fpc, e, hist ? "PreambleDetector.reset" : "PreambleDetector.process", h);
+                        GUARD_END("PreambleDetector.process")
                     }
                 }
             }
